@@ -16,7 +16,7 @@ import (
 func init() {
 	register(&explore.Prop{
 		ID: "C13", Level: levelMC, Explorer: "E2 sequence explorer, state mode (BFS over the real private state of the reused objects)",
-		Rule: "slots = one reusable PostingsList and one reusable PostingsIterator, plus one long-lived Dictionary per (segment, field); a doc-value reader kept across every order of <=5 visits over {0,5,1024,last} of four 1030/2049-document segments, compared with a fresh reader per visit; operation = lookup(segment in {built multi-chunk with locations, merged with 1-hit and general terms, empty batch}, field in {with terms, known without terms, unknown}, term in {general, single-doc (1-hit in the merged segment), absent}, except in {nil, first doc, all docs}, flags in {000,100,111}, consume in {0,1,all,all+1 postings}, prealloc PostingsList in {nil, slot}, prealloc PostingsIterator in {nil, slot}), plus reiterate: the list held in the slot since an earlier lookup is asked again for Count and an iterator (with or without the slot iterator) without a new lookup; BFS over states = (VerifStatePL(slot), VerifStateIter(slot)) to a fixpoint: every reuse history of any length over this alphabet; oracle: the complete result of each lookup equals the same lookup with fresh objects and the reference model; " +
+		Rule: "slots = one reusable PostingsList and one reusable PostingsIterator, plus one long-lived Dictionary per (segment, field); stored-field visits alternating between two same-shaped segments and a third (every sequence of <=4 visits); a doc-value reader kept across every order of <=5 visits over {0,5,1024,last} of four 1030/2049-document segments, compared with a fresh reader per visit; operation = lookup(segment in {built multi-chunk with locations, merged with 1-hit and general terms, empty batch}, field in {with terms, known without terms, unknown}, term in {general, single-doc (1-hit in the merged segment), absent}, except in {nil, first doc, all docs}, flags in {000,100,111}, consume in {0,1,all,all+1 postings}, prealloc PostingsList in {nil, slot}, prealloc PostingsIterator in {nil, slot}), plus reiterate: the list held in the slot since an earlier lookup is asked again for Count and an iterator (with or without the slot iterator) without a new lookup; BFS over states = (VerifStatePL(slot), VerifStateIter(slot)) to a fixpoint: every reuse history of any length over this alphabet; oracle: the complete result of each lookup equals the same lookup with fresh objects and the reference model; " +
 			"distinct/non-trivial = transitions whose lookup reuses an object last used for a different (segment, field, term, except, flags)",
 		Assumptions: append(append([]string{}, commonAssumptions...), "vellum.Reader state inside a long-lived Dictionary is not part of the state key (trusted to be result-neutral)"),
 		Budget:      qBudget, Run: runC13,
@@ -420,6 +420,58 @@ func (m *c13Machine) judge(o lookupOp, exc *roaring.Bitmap, got, want lookupResu
 // dvReuse: one doc-value reader kept across many documents must answer every visit like a fresh
 // reader opened for that visit alone (the doc-value part of C13; C07 judges the same sequences
 // against the model).
+// storedAcross: STORED-ACROSS - the per-call read context of stored-field visits is recycled behind
+// the API (a pool): visits alternate between two segments of identical shape (same byte ranges,
+// other content) and a third one; every visit must deliver what the model says for THAT segment.
+func storedAcross(c *explore.Ctx) {
+	scope := "STORED-ACROSS"
+	if !c.MineIdx(scope, 0) {
+		return
+	}
+	mk := func(tag string) []model.Doc {
+		var b []model.Doc
+		for i, k := range []int{2, 1, 4, 2, 9, 1} {
+			b = append(b, gen.MixDoc(k, tag, i))
+		}
+		return b
+	}
+	batches := [][]model.Doc{mk("a"), mk("z"), {gen.MixDoc(6, "q", 0), gen.MixDoc(2, "q", 1)}}
+	var segs []segment.Segment
+	var models []*model.LSeg
+	for _, b := range batches {
+		sg, err := build(b, 1025)
+		if err != nil {
+			c.Violate(scope, 0, sigOf("C13", "stored-build", "error: "+err.Error()), err.Error(), "")
+			return
+		}
+		segs = append(segs, sg)
+		models = append(models, model.Build(b))
+	}
+	type tgt struct {
+		seg int
+		doc uint64
+	}
+	tgts := []tgt{{0, 0}, {0, 3}, {1, 0}, {1, 3}, {2, 0}, {2, 1}}
+	for n := 1; n <= 4; n++ {
+		gen.Pow(len(tgts), n, func(v []int) bool {
+			c.Eval()
+			c.R.Distinct++
+			c.Nontrivial()
+			c.R.Transitions += int64(n)
+			for i, ti := range v {
+				t := tgts[ti]
+				got, _, err := visitStored(segs[t.seg], t.doc, -1)
+				want := models[t.seg].StoredOf(int(t.doc))
+				if err != nil || !kvEqual(got, want) {
+					c.Violate(scope, 0, "C13/stored-across/wrong", fmt.Sprintf("visit #%d of sequence %v (segment %d doc %d): got %q err=%v, want %q", i, v, t.seg, t.doc, got, err, want), "STORED-ACROSS two twin segments and a third")
+					return false
+				}
+			}
+			return true
+		})
+	}
+}
+
 func dvReuse(c *explore.Ctx) {
 	type cs struct{ n, p int }
 	for ci, k := range []cs{{1030, 4}, {1030, 0}, {2049, 3}, {2049, 7}} {
@@ -472,8 +524,9 @@ func dvReuse(c *explore.Ctx) {
 }
 
 func runC13(c *explore.Ctx) {
-	if !c.Replay || c.ReplayScope == "DV-REUSE" {
+	if !c.Replay || c.ReplayScope == "DV-REUSE" || c.ReplayScope == "STORED-ACROSS" {
 		dvReuse(c)
+		storedAcross(c)
 		if c.Replay {
 			return
 		}
